@@ -316,6 +316,16 @@ example : (run exampleG [.dbl (some 9), .dbl (some 3)] staleSt).1 = some (.dbl (
 example : (run exampleG [.dbl (some 9)] staleSt).1 = some .void := by
   decide
 
+/-- the same expression in another layout (5 rows, the constant duplicated, different introns) gives
+    the same answers (an instance of `interp_layout_indep`, checked here by evaluation) -/
+example : (run exampleG' [.dbl (some 1), .dbl (some 3)] staleSt).1 =
+    (run exampleG [.dbl (some 1), .dbl (some 3)] (St.init exampleG)).1 := by
+  decide
+
+example : (run exampleG' [.dbl (some 9), .dbl (some 3)] (St.init exampleG')).1 =
+    (run exampleG [.dbl (some 9), .dbl (some 3)] staleSt).1 := by
+  decide
+
 /-- one object, three examples in a row -/
 example : (runMany exampleG staleSt [[.dbl (some 1), .dbl (some 3)], [.dbl (some 9), .dbl (some 3)], []]).1 =
     [some (.dbl (some 4)), some (.dbl (some 2)), some .void] := by
